@@ -2,7 +2,8 @@
 exactly those packets, refusal before the first PUSI, completion at the first packet after which the predicate holds,
 predicate errors propagated, refusal after completion, Reset = new.
 Cases: acc.run <pred kind> <k> <ops>   ops: [0 pkt] WritePacket, [1] Reset, [2] Bytes, [3] Packets
-  pred kinds: 0 done when len>=k, 1 never, 2 always, 3 error when len>=k, 4 (true, error) when len>=k, 5 done when last byte = k."""
+  pred kinds: 0 done when len>=k, 1 never, 2 always, 3 error when len>=k, 4 (true, error) when len>=k, 5 done when last byte = k,
+  6 done when the sum of the accumulated bytes = k mod 256."""
 import itertools
 from vlib import Case, hx, parse_val, fmt_val
 
@@ -19,7 +20,7 @@ EXHAUSTIVE_NOTE = ("all WritePacket histories up to length 3 (quick) / 5 (thorou
                    "Bytes/Packets after every call; unbounded histories are covered by the refinement theorem")
 ASSUMPTIONS = [
     "predicate oracle: any function from the accumulated bytes to (done, err); goexec uses threshold, never, always, failing, "
-    "failing-with-done and last-byte predicates; the predicate does not modify the slice it is given",
+    "failing-with-done, last-byte and byte-sum predicates; the predicate does not modify the slice it is given",
     "bytes.Buffer.Write never returns an error (documented: it panics on out-of-memory instead)",
     "packets are [188]byte arrays (the type guarantees the length)",
 ]
@@ -124,8 +125,8 @@ def gen(rng, tier):
                 if rng.random() < 0.7:
                     ops += [2, 3]
         ops += [2, 3]
-        kp = rng.choice([0, 0, 0, 1, 2, 3, 3, 4, 5])
-        k = rng.choice([0, 1, 100, 184, 185, 368, 369, 552, 1000]) if kp != 5 else rng.randrange(256)
+        kp = rng.choice([0, 0, 0, 1, 2, 3, 3, 4, 5, 6, 6])
+        k = rng.choice([0, 1, 100, 184, 185, 368, 369, 552, 1000]) if kp < 5 else rng.randrange(256 if kp == 5 else 8)
         out.append(mk(kp, k, ops, "random-pred%d" % kp))
         if rng.random() < 0.1:
             out.append(mk(kp, k, ops, "fidelity-write-count", decides=False))
